@@ -1,6 +1,7 @@
 import AwsVerif.Proofs.C18.Order
 import AwsVerif.Proofs.C18.Stamp
 import AwsVerif.Proofs.C18.Dtor
+import AwsVerif.Proofs.C18.ImplRun
 /-!
 C18 — linked hash table keeps insertion order; caches evict by their stated policy.
 
@@ -248,6 +249,131 @@ theorem c18_destructors_absent (p : Policy) (max : Nat) (b : Bool) (ops : List O
     dKeys (runLog (Cache.init p max false b) ops).2 = [] ∧ dVals (runLog (Cache.init p max b false) ops).2 = [] :=
   ⟨run_no_keyDtor ops rfl, run_no_valDtor ops rfl⟩
 
+
+/-! ### the implementation-level model refines the abstract one
+
+`Model/LhtImpl.lean` is `linked_hash_table.c` as written: the C02 hash table (values = node
+pointers, `destroy_value_fn` = `s_element_destroy`) plus the C09 intrusive list plus the nodes'
+key / value members.  `Coupled h s xs` (`Proofs/C18/ImplInv.lean`): C02's invariant `Inv h s.ht`,
+C09's `WellLinked s.heap s.list xs`, the table holds exactly `node.key ↦ node` for the nodes `xs`
+of the list, it was created with the user's key destructor and `s_element_destroy`, unallocated
+node ids are fresh.  `absTable s xs` = the list's nodes read off as `(key, value)` pairs.
+The proofs use `create_spec / replace_inv / find_spec / find_none / remove_spec / clear_spec /
+clearLog_eq` (the lemmas behind `c02_refines_map`, `c02_find_sound_complete`,
+`c02_destructors_once`) and `ll_remove / ll_pushBack / ll_init / toList_wl` (behind
+`c09_ll_refines_seq`, `c09_ll_mirror`) as black boxes. -/
+section Impl
+open AwsVerif.LhtImpl
+
+/-- [A] `aws_linked_hash_table_init` (when the hash table can be allocated) yields a state coupled
+with the empty abstract table, for every hash function -/
+theorem c18_impl_init (h : Nat → Nat) (size : Nat) (kd vd : Bool) (s : State) (hi : LhtImpl.init size kd vd = .ok s) :
+    Coupled h s [] ∧ absTable s [] = (Cache.init .none 1 kd vd).table :=
+  init_coupled h hi
+
+/-- [A] **composition theorem.**  From any coupled state, every implemented call —
+`put`, `find`, `find_and_move_to_back`, `remove`, `clear` with any probe pointer, for every user
+hash function `h` — never dereferences NULL and is the abstract call of `Model/Lht.lean`: the new
+state is coupled again (C02 invariant, well-linked list, table values = list nodes), its abstraction
+is the abstract result table, the returned value is the same, and the destructor log is the same
+(for `clear`, whose calls come in hash-slot order: the same multiset).  The only other outcome is
+`put` reporting the hash table's size overflow, with the abstract state unchanged. -/
+theorem c18_impl_refines_lht (h : Nat → Nat) (s : State) (xs : List LhtImpl.NodeId) (hc : Coupled h s xs)
+    (max : Nat) (op : IOp) :
+    match LhtImpl.step h s op with
+    | .crash => False
+    | .err s' => (∃ k v, op = .put k v) ∧ Coupled h s' xs ∧ absTable s' xs = absTable s xs
+    | .ok s' r evs =>
+      ∃ xs', Coupled h s' xs' ∧
+        absTable s' xs' = ((bare max (absTable s xs)).step op.abs).1.table ∧
+        r = ((bare max (absTable s xs)).step op.abs).2.1 ∧
+        evs.Perm ((bare max (absTable s xs)).step op.abs).2.2 ∧
+        (op ≠ .clear → evs = ((bare max (absTable s xs)).step op.abs).2.2) := by
+  have := step_refines hc max op
+  cases hs : LhtImpl.step h s op with
+  | crash => rw [hs] at this; exact this
+  | err s' =>
+    rw [hs] at this
+    obtain ⟨h1, h2, h3⟩ := this
+    refine ⟨?_, h2, h3⟩
+    cases op <;> simp [IOp.isPut] at h1
+    exact ⟨_, _, rfl⟩
+  | ok s' r evs =>
+    rw [hs] at this
+    obtain ⟨xs', h1, h2, h3, h4, h5⟩ := this
+    refine ⟨xs', h1, h2, h3, h4, fun hne => h5 ?_⟩
+    cases op <;> simp [IOp.isClear] at hne ⊢
+
+/-- [A] `aws_linked_hash_table_move_node_to_end_of_list` on a node of the list is the abstract
+move-to-end of that node's identity -/
+theorem c18_impl_move_to_end (h : Nat → Nat) (s : State) (xs : List LhtImpl.NodeId) (hc : Coupled h s xs)
+    (n : LhtImpl.NodeId) (hn : n ∈ xs) :
+    ∃ s' xs', LhtImpl.moveToEnd s n = .ok s' () [] ∧ Coupled h s' xs' ∧
+      absTable s' xs' = (absTable s xs).moveToEnd (s.nodeKey n).ident :=
+  moveToEnd_refines hc hn
+
+/-- [A] in a coupled state the real iteration (walk `table->list` from `head.next` to `tail`, read
+each node's key and value) returns the abstract entry list, the backward walk its mirror image
+(`c09_ll_mirror`), and `get_element_count` the abstract count -/
+theorem c18_impl_iterate (h : Nat → Nat) (s : State) (xs : List LhtImpl.NodeId) (hc : Coupled h s xs) (fuel : Nat)
+    (hf : xs.length + 1 ≤ fuel) :
+    iterate s fuel = some (absTable s xs).entries ∧ LhtImpl.count s = (absTable s xs).count ∧
+    LinkedList.toListRev s.heap s.list fuel = some xs.reverse :=
+  ⟨iterate_coupled hc hf, count_coupled hc, AwsVerif.Proofs.C09.toListRev_wl hc.wl hf⟩
+
+/-- [A] whole histories: running any list of calls on a freshly initialised implemented table
+either stops at a size-overflow `put` or ends in a coupled state whose abstraction, returned values
+and destructor log (as a multiset) are those of the abstract model run on the same history — so
+every `c18_*` theorem about `run (Cache.init .none …)` speaks about the implemented table. -/
+theorem c18_impl_run (h : Nat → Nat) (size max : Nat) (kd vd : Bool) (s : State) (hi : LhtImpl.init size kd vd = .ok s)
+    (ops : List IOp) :
+    match runImpl h s ops with
+    | .crash => False
+    | .err _ => True
+    | .ok s' rs evs =>
+      ∃ xs', Coupled h s' xs' ∧
+        (absTable s' xs').entries = (run (Cache.init .none max kd vd) (ops.map IOp.abs)).table.entries ∧
+        rs = (runAll (Cache.init .none max kd vd) (ops.map IOp.abs)).2.1 ∧
+        evs.Perm (runAll (Cache.init .none max kd vd) (ops.map IOp.abs)).2.2 := by
+  obtain ⟨hc, ha⟩ := init_coupled h hi
+  have := run_refines (h := h) max ops hc
+  have hb : bare max (absTable s []) = Cache.init .none max kd vd := by rw [ha]; rfl
+  rw [hb] at this
+  have hfst : ∀ (ops : List Op) (c : Cache), (runAll c ops).1 = run c ops := by
+    intro ops
+    induction ops with
+    | nil => intro c; rfl
+    | cons op ops ih => intro c; simp only [runAll, run]; exact ih _
+  cases hr : runImpl h s ops with
+  | crash => rw [hr] at this; exact this
+  | err s' => trivial
+  | ok s' rs evs =>
+    rw [hr] at this
+    obtain ⟨xs', h1, h2, h3, h4⟩ := this
+    exact ⟨xs', h1, by rw [h2, hfst], h3, h4⟩
+
+/-- [A] **transferred corollary** (`c18_order`, `c18_order_history` at implementation level): after
+any history that did not hit the size overflow, iterating the implemented table's real list yields
+exactly the reference ordered map's list — and, for put / find / remove / clear histories, exactly
+the insertions not displaced later, in insertion order. -/
+theorem c18_impl_order (h : Nat → Nat) (size : Nat) (kd vd : Bool) (s : State) (hi : LhtImpl.init size kd vd = .ok s)
+    (ops : List IOp) (s' : State) (rs : List (Option Nat)) (evs : List Ev)
+    (hr : runImpl h s ops = .ok s' rs evs) :
+    ∃ n, ∀ fuel, n ≤ fuel →
+      iterate s' fuel = some ((ops.map IOp.abs).foldl refStep []) ∧
+      ((∀ op ∈ ops.map IOp.abs, ApiOp op) → iterate s' fuel = some (survivors (ops.map IOp.abs))) := by
+  have := c18_impl_run h size 1 kd vd s hi ops
+  rw [hr] at this
+  obtain ⟨xs', h1, h2, _, _⟩ := this
+  refine ⟨xs'.length + 1, fun fuel hf => ?_⟩
+  have hit := iterate_coupled h1 hf
+  have : abs s' xs' = (absTable s' xs').entries := rfl
+  rw [this, h2] at hit
+  exact ⟨by rw [hit, c18_order 1 kd vd _ (Nat.le_refl 1)],
+         fun hapi => by rw [hit, c18_order_history 1 kd vd _ (Nat.le_refl 1) hapi]⟩
+
+end Impl
+
 /-! ### Non-vacuity: the hypotheses are met by concrete non-trivial histories -/
 
 /-- LRU of 2: a lookup saves identity 1, identity 2 is evicted (hypotheses of `c18_victim_lru` hold
@@ -285,5 +411,24 @@ example :
 example :
     survivors [.put ⟨1, 0⟩ 10, .put ⟨2, 0⟩ 11, .put ⟨1, 1⟩ 12, .remove 2, .put ⟨3, 0⟩ 13]
       = [(⟨1, 1⟩, 12), (⟨3, 0⟩, 13)] := by decide
+
+/-- the implementation-level model on a concrete history (user hash = identity, growth from 2 to 4
+slots, overwrite with an equal-but-distinct pointer, find-and-move, remove): it does not crash, the
+real list walk gives the expected order, and the hypotheses of `c18_impl_run` / `c18_impl_order`
+(`init = .ok`, `runImpl = .ok`) are met -/
+def exImplCheck : Bool :=
+  match LhtImpl.init 2 true true with
+  | .error _ => false
+  | .ok s0 =>
+    match LhtImpl.runImpl id s0 [.put ⟨1, 0⟩ 10, .put ⟨2, 0⟩ 11, .put ⟨3, 0⟩ 12, .put ⟨1, 1⟩ 13,
+                                 .findMove ⟨2, 9⟩, .find ⟨7, 0⟩, .remove ⟨3, 5⟩] with
+    | .ok s' rs evs =>
+      decide (LhtImpl.iterate s' 10 = some [(⟨1, 1⟩, 13), (⟨2, 0⟩, 11)]) &&
+      decide (rs = [none, none, none, none, some 11, none, none]) &&
+      decide (evs = [.val 10, .key ⟨1, 0⟩, .key ⟨3, 0⟩, .val 12]) &&
+      decide (LhtImpl.count s' = 2)
+    | _ => false
+
+example : exImplCheck = true := by decide
 
 end AwsVerif.Props.C18
